@@ -8,9 +8,11 @@ from fractions import Fraction
 
 import z3
 
-from .values import (BASE_SORTS, Unsupported, VChar, VConc, VDict, VFilter, VFunc, VList, VOpt, VRange, VRec, VRef, VSet,
+from .values import (BASE_SORTS, Unsupported, VChar, VConc, VDict, VFilter, VFunc, VHList, VList, VOpt, VRange, VRec, VRef, VSet,
                      VTuple, fresh, is_conc, is_leaf, ite_tree, key_sorts, key_terms, sel, shape_of, sto, tmap, to_z3,
                      tzip, uid)
+
+from .values import leaves
 
 I = z3.IntSort()
 
@@ -129,6 +131,8 @@ class ExprMixin:
             return to_z3(v.length) > 0 if not isinstance(v.length, int) else v.length > 0
         if isinstance(v, VTuple):
             return len(v.items) > 0
+        if isinstance(v, VRef) and self.classes.get(v.cls, {}).get("boxed_list"):
+            raise Unsupported("truth value of a list object (its emptiness lives on the heap)")
         if isinstance(v, (VRef, VRec, VFunc, VChar)):
             return True
         if isinstance(v, VOpt):
@@ -163,6 +167,12 @@ class ExprMixin:
                 return to_z3(a.code) == to_z3(b.code)
             if isinstance(b, str):
                 return to_z3(a.code) == ord(b) if len(b) == 1 else False
+            if is_leaf(b) and b.sort() == z3.StringSort():
+                # a character equals a string iff the string has length one and the same code point
+                codes = ite_const_map(b, lambda t: ord(t) if len(t) == 1 else -2)
+                if codes is not None:
+                    return to_z3(a.code) == codes
+                return AND(z3.Length(b) == 1, to_z3(a.code) == z3.StrToCode(b))
             return False
         if isinstance(a, VConc) and isinstance(b, VConc):
             return a.obj == b.obj
@@ -176,8 +186,8 @@ class ExprMixin:
                 return OR(AND(a.isnone, b.isnone), AND(NOT(a.isnone), NOT(b.isnone), self.eq(a.val, b.val)))
             return AND(NOT(a.isnone), self.eq(a.val, b))
         if isinstance(a, VTuple) and isinstance(b, VTuple):
-            if len(a.items) != len(b.items):
-                return False
+            if len(a.items) != len(b.items) or isinstance(a, VHList) != isinstance(b, VHList):
+                return False  # (a list never equals a tuple)
             return AND(*[self.eq(x, y) for x, y in zip(a.items, b.items)])
         if isinstance(a, VList) and isinstance(b, VList):
             q = z3.Int(uid("q"))
@@ -185,6 +195,8 @@ class ExprMixin:
             return AND(to_z3(a.length) == to_z3(b.length),
                        z3.ForAll([q], z3.Implies(z3.And(q >= 0, q < to_z3(a.length)), to_z3(self.eq(ea, eb)))))
         if isinstance(a, VRef) and isinstance(b, VRef):
+            if not self.spec and (self.classes.get(a.cls, {}).get("boxed_list") or self.classes.get(b.cls, {}).get("boxed_list")):
+                raise Unsupported("== of list objects (structural in Python; in specs == on references is identity)")
             eqm = self.class_eq(a, b)
             if eqm is not None:
                 return eqm
@@ -208,6 +220,12 @@ class ExprMixin:
         raise Unsupported(f"equality of {type(a).__name__}")
 
     def class_eq(self, a, b):
+        """`==` of two references of a class whose sidecar entry names an `eq` relation (a UFUNS predicate over the two
+        references standing for a user-defined / dataclass-generated __eq__); None = default object identity"""
+        if a.cls == b.cls:
+            fn = self.classes.get(a.cls, {}).get("eq")
+            if fn is not None:
+                return self.spec_env[fn].payload(a, b)
         return None
 
     def rec_eq_fields(self, cls):
@@ -249,16 +267,38 @@ class ExprMixin:
             return VOpt(False, self.coerce(v, shape[1]))
         if k == "real" and (is_int(v) or isinstance(v, (float, Fraction))):
             return to_z3(v, "real")
+        if k == "char" and is_leaf(v) and v.sort() == z3.StringSort():
+            # a string known to have exactly one character, as its code point
+            # (the empty string - an out-of-range position of a constant table in a specification - maps to code -1, no character)
+            codes = ite_const_map(v, lambda t: ord(t) if len(t) == 1 else (-1 if t == "" else None))
+            if codes is not None:
+                return VChar(codes)
+            raise Unsupported("a symbolic string stored where a single character is declared")
         if k == "tuple" and isinstance(v, VTuple):
             return VTuple([self.coerce(x, s) for x, s in zip(v.items, shape[1])])
+        if k == "hlist" and isinstance(v, VHList) and len(v.items) == len(shape[1]):
+            return VHList([self.coerce(x, s) for x, s in zip(v.items, shape[1])])
         if k == "enum" and isinstance(v, VConc):
             return self.enum_ord(v.obj)
+        if k == "enum" and isinstance(v, VEnumSym):
+            # member given by a symbolic name/value (Enum[name] / Enum(value), membership already checked there): its
+            # ordinal in definition order, the same encoding as for a concrete member
+            members = list(v.cls)
+            res = z3.IntVal(len(members) - 1)
+            for pos in range(len(members) - 2, -1, -1):
+                mk = members[pos].name if v.by == "name" else members[pos].value
+                res = z3.If(to_z3(v.key) == to_z3(mk), z3.IntVal(pos), res)
+            return res
         if k == "char" and isinstance(v, str) and len(v) == 1:
             return VChar(ord(v))
         if k == "list" and isinstance(v, str) and shape[1] == ("char",):
             return self.list_literal([VChar(ord(ch)) for ch in v], ("char",))
         if k == "list" and type(v).__name__ == "VJoined":
             return v.lst
+        if k == "list" and isinstance(v, VList) and v.elems is None:
+            return self.default_of(shape)  # the untyped literal [] as the empty list of the declared element shape
+        if k == "dict" and type(v).__name__ == "VEmptyDict":
+            return self.empty_of(shape, v)  # the literal {} as the empty dict of the declared shape
         return v
 
     def default_of(self, shape):
@@ -324,13 +364,31 @@ class ExprMixin:
             return VFunc("class", n, n)
         if hasattr(self.realmod, n):
             return self.from_py(getattr(self.realmod, n))
+        if f"builtins.{n}" in self.externals:
+            # a builtin (open, print ...) whose assumed contract the sidecar supplies as an external (trusted base)
+            from .engine import _ExtHandle
+            return VConc(_ExtHandle(f"builtins.{n}"))
         raise Unsupported(f"unbound name {n} at line {node.lineno}")
 
     def ev_Tuple(self, node, st):
         return VTuple([self.ev(e, st) for e in node.elts])
 
     def ev_List(self, node, st):
-        return self.list_literal([self.ev(e, st) for e in node.elts])
+        items = [self.ev(e, st) for e in node.elts]
+        if len(items) > 1:
+            try:
+                shapes = [shape_of(x) for x in items]
+            except Unsupported:
+                shapes = None
+            if shapes is not None and any(sh != shapes[0] for sh in shapes[1:]) and not all(sh in (("int",), ("real",)) for sh in shapes):
+                return VHList(items)  # elements of different shapes: fixed-length heterogeneous list
+        return self.list_literal(items)
+
+    def ev_Dict(self, node, st):
+        if node.keys:
+            raise Unsupported("non-empty dict literal")
+        from .engine import VEmptyDict
+        return VEmptyDict()  # gets its shape from the contract's `locals` table at the assignment
 
     def ev_JoinedStr(self, node, st):
         parts = []
@@ -414,6 +472,8 @@ class ExprMixin:
         res = vals[-1]
         for v in reversed(vals[:-1]):
             t = self.truth(v)
+            if not isand and isinstance(v, VOpt) and res is not None and not isinstance(res, VOpt):
+                v = v.val  # `x or d` (d never None) yields x only when x is truthy, hence not None: its payload
             res = self.merge(t, res, v) if isand else self.merge(t, v, res)
         return res
 
@@ -537,7 +597,13 @@ class ExprMixin:
         try:
             for op, rn in zip(node.ops, node.comparators):
                 right = self.ev(rn, st)
-                c = self.compare(op, left, right, node)
+                if isinstance(op, (ast.In, ast.NotIn)) and isinstance(right, VRef) and self.classes.get(right.cls, {}).get("boxed_list"):
+                    right = self.heap_read(st, right, self.classes[right.cls]["boxed_list"])  # `x in <list object>`: its content
+                if isinstance(op, ast.Lt) and isinstance(left, VRef) and isinstance(right, VRef) and not self.spec \
+                        and self.resolve(f"{left.cls}.__lt__"):
+                    c = self.truth(self.call_method(left, "__lt__", [right], {}, node, st))  # a < b is a.__lt__(b)
+                else:
+                    c = self.compare(op, left, right, node)
                 res.append(c)
                 left = right
                 if len(node.ops) > 1:
@@ -571,6 +637,13 @@ class ExprMixin:
             if isinstance(op, ast.In):
                 return e
             return (not e) if isinstance(e, bool) else NOT(e)
+        # ordering
+        if isinstance(a, VRef) and isinstance(b, VRef) and a.cls == b.cls and isinstance(op, (ast.Lt, ast.Gt)):
+            # `<` of two references of a class whose sidecar entry names an `lt` relation: a UFUNS predicate over the two
+            # references standing for the user-defined __lt__ (declared pure there); a > b is b.__lt__(a) (total_ordering)
+            fn = self.classes.get(a.cls, {}).get("lt")
+            if fn is not None:
+                return self.spec_env[fn].payload(a, b) if isinstance(op, ast.Lt) else self.spec_env[fn].payload(b, a)
         # ordering
         if isinstance(a, VTuple) and isinstance(b, VTuple):
             return self.lex_lt(op, a.items, b.items)
@@ -644,10 +717,16 @@ class ExprMixin:
                 return False
             q = z3.Int(uid("q"))
             return z3.Exists([q], z3.And(q >= 0, q < to_z3(cont.length), to_z3(self.eq(sel(cont.elems, q), x))))
+        if isinstance(x, VOpt) and isinstance(cont, (VSet, VDict)) and cont.kshape[0] != "opt":
+            # None is never a member of a container whose keys are all non-None
+            return AND(NOT(x.isnone), self.contains(cont, x.val, node))
+        if isinstance(cont, (VSet, VDict)) and isinstance(x, VOpt) and cont.kshape[0] != "opt":
+            # an Optional value looked up among keys that are never None: None is not a member, otherwise its payload
+            return AND(NOT(x.isnone), self.contains(cont, x.val, node))
         if isinstance(cont, VSet):
-            return sel(cont.mem, *key_terms(x))
+            return sel(cont.mem, *key_terms(self.coerce(x, cont.kshape)))
         if isinstance(cont, VDict):
-            return sel(cont.dom, *key_terms(x))
+            return sel(cont.dom, *key_terms(self.coerce(x, cont.kshape)))
         raise Unsupported(f"membership in {type(cont).__name__}")
 
     # ------------------------------------------------------------------ subscripts
@@ -691,6 +770,15 @@ class ExprMixin:
                 self.may_raise(True, "IndexError", node)
                 raise Unsupported("index into empty literal list")
             i = self.norm_index(idx, base.length, node)
+            if isinstance(base.length, int) and 0 < base.length <= 64 and base.eshape in (("str",), ("int",)) and not is_conc(i):
+                # a list of known length whose elements all fold to constants (a literal table), symbolic position:
+                # the same value written as a case split over the position
+                items = [z3.simplify(sel(base.elems, z3.IntVal(k_))) for k_ in range(base.length)]
+                if all(z3.is_string_value(x_) or z3.is_int_value(x_) for x_ in items):
+                    res = items[-1]
+                    for k_ in range(base.length - 2, -1, -1):
+                        res = z3.If(to_z3(i) == k_, items[k_], res)
+                    return res
             return sel(base.elems, to_z3(i))
         if isinstance(base, VVec):
             if isinstance(idx, int) and -len(base.c) <= idx < len(base.c):
@@ -713,10 +801,26 @@ class ExprMixin:
                     self.may_raise(True, "IndexError", node)
                     return ""
                 return base[idx]
+            if is_leaf(base) and isinstance(idx, int) and not isinstance(idx, bool):
+                # s[k] of a finite choice among constant strings: index every alternative (same value, no string theory)
+                pushed = ite_const_map(base, lambda t: t[idx] if -len(t) <= idx < len(t) else None)
+                if pushed is not None:
+                    return pushed
             ln = len(base) if isinstance(base, str) else z3.Length(base)
             i = self.norm_index(idx, ln, node)
+            if isinstance(base, str) and len(base) <= 64:
+                # constant string, symbolic position: the same value as substr(base, i, 1), written as a case split
+                res = z3.StringVal("")
+                for k in range(len(base) - 1, -1, -1):
+                    res = z3.If(to_z3(i) == k, z3.StringVal(base[k]), res)
+                return res
             return z3.SubString(to_z3(base), to_z3(i), 1)
         if isinstance(base, VDict):
+            if not isinstance(idx, VOpt):
+                idx = self.coerce(idx, base.kshape)  # e.g. a one-character string used as key of a dict keyed by characters
+            if isinstance(idx, VOpt) and base.kshape[0] != "opt" and base.default is None:
+                self.may_raise(idx.isnone, "KeyError", node)  # None is not a key of a dict whose keys are all non-None
+                idx = idx.val
             ks = key_terms(idx)
             if base.default is None:
                 self.may_raise(NOT(sel(base.dom, *ks)), "KeyError", node)
@@ -861,7 +965,20 @@ class ExprMixin:
                     out.append(self.ev(node.elt, st2))
             return self.list_literal(out)
         if g.ifs:
-            raise Unsupported("filtered comprehension over a symbolic iterable")
+            if not isinstance(it, VList) or it.elems is None:
+                raise Unsupported("filtered comprehension over a symbolic iterable")
+
+            def pred_fn(x):
+                st2 = st.copy()
+                self.bind_target(g.target, x, st2, node)
+                return AND(*[self.truth(self.ev(c, st2)) for c in g.ifs])
+
+            def elt_fn(x):
+                st2 = st.copy()
+                self.bind_target(g.target, x, st2, node)
+                return self.ev(node.elt, st2)
+
+            return self.materialize_filter(it, pred_fn, elt_fn, st, node)
         q = z3.Int(uid("q"))
         if isinstance(it, VRange):
             n = it.hi - it.lo if isinstance(it.hi, int) and isinstance(it.lo, int) else to_z3(it.hi) - to_z3(it.lo)
@@ -872,20 +989,191 @@ class ExprMixin:
         elif isinstance(it, VList):
             x = sel(it.elems, q)
             length = it.length
+        elif type(it).__name__ == "VDictView" and it.d.order is not None:
+            # a dict view iterates in insertion order of the keys (language guarantee)
+            key = sel(it.d.order.elems, q)
+            val = sel(it.d.vals, *key_terms(key))
+            x = {"keys": key, "values": val, "items": VTuple([key, val])}[it.which]
+            length = it.d.order.length
         else:
             raise Unsupported(f"comprehension over {type(it).__name__}")
         st2 = st.copy()
         self.bind_target(g.target, x, st2, node)
         self.guard.append(z3.And(q >= 0, q < to_z3(length)))
+        outer_binders = tuple(self.binders)
+        self.binders = outer_binders + (q,)
+        saved_block = getattr(self, "alloc_block", None)
+        # objects constructed by the element expression: one allocation per element, element q gets identity base + q
+        self.alloc_block = None if outer_binders else {"q": q, "n": to_z3(length), "base": to_z3(st.alloc), "count": 0, "writes": []}
         try:
             elt = self.ev(node.elt, st2)
+            block = self.alloc_block
         finally:
             self.guard.pop()
+            self.binders = tuple(self.binders)[:-1]
+            self.alloc_block = saved_block
+        if block is not None and block["count"]:
+            self.commit_alloc_block(block, st)
         # may-raise conditions recorded under the guard mention q: close them existentially
         self.close_mayraise(q)
         eshape = shape_of(elt)
         elems = tmap(lambda leaf: z3.Lambda([q], leaf), self.coerce(elt, eshape))
         return VList(length, elems, eshape)
+
+    def commit_alloc_block(self, block, st):
+        """[C(..x..) for x in L] allocates len(L) new objects: element q is the reference base + q (base = allocation
+        frontier before the comprehension) and every field f of C becomes
+            f'[r] = value_of_f(q := r - base)  for base <= r < base + n,   f'[r] = f[r] otherwise;
+        the frontier moves to base + n.  (f' is a fresh array defined by that equation for every r.)"""
+        q, n, base = block["q"], block["n"], block["base"]
+        r = z3.Int(uid("r"))
+        for cls, f, val in block["writes"]:
+            shp = self.field_shape(cls, f)
+            val = self.coerce(val, shp)
+            old = self.heap_tree(st, cls, f)
+            new = fresh(shp, uid(f"H.{cls}.{f}@comp"), (I,))
+            inblock = z3.And(r >= base, r < base + n)
+            at = tmap(lambda leaf: z3.substitute(leaf, (q, r - base)), val)
+            eqs = []
+            tzip(lambda a_, b_: (eqs.append(a_ == b_), a_)[1], sel(new, r), ite_tree(inblock, at, sel(old, r)))
+            st.assume(z3.ForAll([r], z3.And(*eqs)))
+            st.heap[(cls, f)] = new
+        st.alloc = z3.simplify(base + n)
+
+    # variables bound by enclosing comprehensions during symbolic evaluation of an element expression: anything "fresh"
+    # created there must be a function of them (materialize_filter does this; contract calls are refused)
+    binders = ()
+
+    def _under_binders(self, shape, name):
+        """fresh value of `shape` that is a function of the current binders (a fresh constant when there are none)"""
+        bs = list(self.binders)
+        lifted = fresh(shape, name, tuple(b.sort() for b in bs))
+        return sel(lifted, *bs) if bs else lifted
+
+    def materialize_filter(self, base, pred_fn, elt_fn, st, node):
+        """[elt(x) for x in base if pred(x)] for a list of symbolic length: the language-level meaning of filtering,
+        given by an (unknown) strictly increasing index map idx onto the positions that satisfy pred and its inverse pos:
+            0 <= m <= n;   idx[j] in [0, n), pred(base[idx[j]]) and out[j] == elt(base[idx[j]]) for j < m;   idx increasing;
+            pred(base[i]) -> pos[i] in [0, m) and idx[pos[i]] == i   for i < n.
+        Exactly one (m, idx restricted to [0, m)) satisfies this for given base/pred, so nothing is approximated."""
+        n = to_z3(base.length)
+        m = self._under_binders(("int",), uid("flt.len"))
+        bs = list(self.binders)
+        bsorts = tuple(b.sort() for b in bs)
+        idx_l = fresh(("int",), uid("flt.idx"), bsorts + (I,))
+        pos_l = fresh(("int",), uid("flt.pos"), bsorts + (I,))
+        idx = sel(idx_l, *bs) if bs else idx_l
+        pos = sel(pos_l, *bs) if bs else pos_l
+        i, j, j2 = z3.Int(uid("i")), z3.Int(uid("j")), z3.Int(uid("j"))
+        # pred at an arbitrary position (evaluated by Python for every element, in order)
+        self.guard.append(z3.And(i >= 0, i < n))
+        self.binders = tuple(self.binders) + (i,)
+        try:
+            p_i = to_z3(pred_fn(sel(base.elems, i)))
+            self.guard[-1] = z3.And(i >= 0, i < n, p_i)
+            e_i = elt_fn(sel(base.elems, i))
+        finally:
+            self.guard.pop()
+            self.binders = tuple(self.binders)[:-1]
+        self.close_mayraise(i)
+        eshape = shape_of(e_i)
+        e_i = self.coerce(e_i, eshape)
+        # out[j] == elt(base[idx[j]]) leaf by leaf (an array constrained by a quantified fact rather than a lambda term)
+        out_l = fresh(eshape, uid("flt.out"), bsorts + (I,))
+        elems = sel(out_l, *bs) if bs else out_l
+        want = tmap(lambda leaf: z3.substitute(leaf, (i, z3.Select(idx, j))), e_i)
+        same = z3.And(*[a_ == b_ for a_, b_ in zip(leaves(sel(elems, j)), leaves(want))])
+        p_at = lambda t: z3.substitute(p_i, (i, t))
+        ax = z3.And(
+            m >= 0, m <= n,
+            z3.ForAll([j], z3.Implies(z3.And(j >= 0, j < m), same)),
+            z3.ForAll([j], z3.Implies(z3.And(j >= 0, j < m), z3.And(z3.Select(idx, j) >= 0, z3.Select(idx, j) < n, p_at(z3.Select(idx, j))))),
+            z3.ForAll([j, j2], z3.Implies(z3.And(j >= 0, j < j2, j2 < m), z3.Select(idx, j) < z3.Select(idx, j2))),
+            z3.ForAll([i], z3.Implies(z3.And(i >= 0, i < n, p_i),
+                                      z3.And(z3.Select(pos, i) >= 0, z3.Select(pos, i) < m, z3.Select(idx, z3.Select(pos, i)) == i))))
+        st.assume(z3.ForAll(bs, ax) if bs else ax)
+        self.last_filter = {"binders": bs, "len": m, "idx": idx, "pos": pos, "n": n}
+        return VList(m, elems, eshape)
+
+    def ev_DictComp(self, node, st):
+        """{key(x): val(x) for x in L}: insertion-ordered dict built by successive stores.  Characterised by unknown maps
+        lo (key -> its last position in L, whose value wins), fo (rank -> first position of the rank-th distinct key),
+        rank (key -> its rank): dom = keys occurring in L; vals[k] = val(L[lo[k]]); order = distinct keys by first
+        occurrence."""
+        if len(node.generators) != 1 or node.generators[0].ifs or self.binders:
+            raise Unsupported("dict comprehension with several generators, a filter, or nested in a comprehension")
+        g = node.generators[0]
+        it = self.ev(g.iter, st)
+        conc = self.conc_iter(it)
+        if conc is not None:
+            # concrete iterable: the successive stores, literally; the dict's shape comes from the contract's `locals`
+            shp = getattr(self, "local_hint", None)
+            if shp is None or shp[0] != "dict":
+                raise Unsupported("dict comprehension over a concrete iterable: declare the target's shape in `locals`")
+            from .engine import VEmptyDict
+            d = self.empty_of(shp, VEmptyDict())
+            for x in conc:
+                st2 = st.copy()
+                self.bind_target(g.target, x, st2, node)
+                d = self.dict_store(d, self.coerce(self.ev(node.key, st2), shp[1]), self.ev(node.value, st2))
+            return d
+        if isinstance(it, VDict):
+            if it.order is None:
+                raise Unsupported("iteration over a dict of unknown insertion order")
+            it = it.order
+        if not isinstance(it, VList) or it.elems is None:
+            raise Unsupported(f"dict comprehension over {type(it).__name__}")
+        n = to_z3(it.length)
+        q = z3.Int(uid("q"))
+        st2 = st.copy()
+        self.bind_target(g.target, sel(it.elems, q), st2, node)
+        self.guard.append(z3.And(q >= 0, q < n))
+        self.binders = tuple(self.binders) + (q,)
+        try:
+            key = self.ev(node.key, st2)
+            val = self.ev(node.value, st2)
+        finally:
+            self.guard.pop()
+            self.binders = tuple(self.binders)[:-1]
+        self.close_mayraise(q)
+        for f in st2.pc[len(st.pc):]:
+            # facts established while evaluating key/value that do not depend on the position q (e.g. the closed
+            # characterisation of a filtering list built per element) hold in the enclosing state as well
+            if not any(v.eq(q) for v in _free_consts(f)):
+                st.assume(f)
+        kshape = shape_of(key)
+        if val is None:
+            vshape = ("opt", ("int",))  # a dict whose values are all None
+        else:
+            vshape = shape_of(val)
+        val = self.coerce(val, vshape)
+        kq = key_terms(key)
+        ksorts = key_sorts(kshape)
+        ks = [z3.Const(uid("k"), srt) for srt in ksorts]
+        dom = fresh(("bool",), uid("dc.dom"), tuple(ksorts))
+        lo = fresh(("int",), uid("dc.last"), tuple(ksorts))
+        rank = fresh(("int",), uid("dc.rank"), tuple(ksorts))
+        fo = z3.Const(uid("dc.first"), z3.ArraySort(I, I))
+        order = fresh(("list", kshape), uid("dc.order"))
+        L = to_z3(order.length)
+        a, b, w = z3.Int(uid("a")), z3.Int(uid("b")), z3.Int(uid("w"))
+        key_at = lambda t: [z3.substitute(x, (q, t)) for x in kq]
+        eqk = lambda xs, ys: z3.And(*[x == y for x, y in zip(xs, ys)]) if xs else z3.BoolVal(True)
+        lo_k, rank_k, dom_k = sel(lo, *ks), sel(rank, *ks), sel(dom, *ks)
+        ord_at = lambda t: key_terms(sel(order.elems, t))
+        st.assume(z3.ForAll([q], z3.Implies(z3.And(q >= 0, q < n), sel(dom, *kq))))
+        st.assume(z3.ForAll(ks, z3.Implies(dom_k, z3.And(
+            lo_k >= 0, lo_k < n, eqk(key_at(lo_k), ks),
+            z3.ForAll([w], z3.Implies(z3.And(lo_k < w, w < n), z3.Not(eqk(key_at(w), ks)))),
+            rank_k >= 0, rank_k < L, eqk(ord_at(rank_k), ks)))))
+        st.assume(z3.And(L >= 0, L <= n))
+        st.assume(z3.ForAll([a], z3.Implies(z3.And(a >= 0, a < L), z3.And(
+            z3.Select(fo, a) >= 0, z3.Select(fo, a) < n, eqk(key_at(z3.Select(fo, a)), ord_at(a)),
+            z3.ForAll([w], z3.Implies(z3.And(w >= 0, w < z3.Select(fo, a)), z3.Not(eqk(key_at(w), ord_at(a)))))))))
+        st.assume(z3.ForAll([a, b], z3.Implies(z3.And(a >= 0, a < b, b < L), z3.Select(fo, a) < z3.Select(fo, b))))
+        vals = tmap(lambda leaf: _lambda_multi(ks, z3.substitute(leaf, (q, lo_k))), val)
+        self.last_dictcomp = {"last": lo, "rank": rank, "first": fo, "kshape": kshape}
+        return VDict(kshape, vshape, dom, vals, order)
 
     def close_mayraise(self, q):
         out = []
@@ -902,6 +1190,8 @@ class ExprMixin:
         if isinstance(it, VConc) and isinstance(it.obj, (str, list, tuple, dict, set, frozenset, range)):
             if len(it.obj) <= 128:
                 return [self.from_py(x) for x in it.obj]
+        if isinstance(it, VConc) and isinstance(it.obj, type) and issubclass(it.obj, enum.Enum) and len(it.obj) <= 128:
+            return [VConc(m) for m in it.obj]  # iterating an Enum class yields its members in definition order
         if isinstance(it, VTuple):
             return list(it.items)
         if isinstance(it, VRange) and isinstance(it.lo, int) and isinstance(it.hi, int) and it.hi - it.lo <= 64:
@@ -948,6 +1238,33 @@ def VEnumIte(engine, c, a, b):
     kb = b.obj.name if isinstance(b, VConc) else b.key
     cls = type(a.obj) if isinstance(a, VConc) else a.cls
     return VEnumSym(cls, z3.If(to_z3(c), to_z3(ka), to_z3(kb)), "name")
+
+
+def _lambda_multi(ks, body):
+    """nested lambda over several index variables (array leaves indexed key component by key component)"""
+    for k in reversed(ks):
+        body = z3.Lambda([k], body)
+    return body
+
+
+def ite_const_map(z, f):
+    """z: z3 term. If z is a constant or an if-then-else tree whose leaves are all string constants, the tree with f applied
+    to every leaf (f: python str -> str | int; returning None for some leaf aborts) else None.  g(ite(c,a,b)) == ite(c,g(a),g(b))."""
+    def walk(e, depth=0):
+        if depth > 200:
+            return None
+        if z3.is_string_value(e):
+            r = f(e.as_string())
+            if r is None:
+                return None
+            return z3.StringVal(r) if isinstance(r, str) else z3.IntVal(r)
+        if z3.is_app(e) and e.decl().kind() == z3.Z3_OP_ITE:
+            a, b = walk(e.arg(1), depth + 1), walk(e.arg(2), depth + 1)
+            if a is None or b is None:
+                return None
+            return z3.If(e.arg(0), a, b)
+        return None
+    return walk(z)
 
 
 def _has_quant(e, seen=None):
